@@ -65,3 +65,7 @@ open Csproto
 #print axioms Csproto.C03.Source.DecodeFixed64_safe
 #print axioms Csproto.C03.Source.DecodeBytes_safe
 #print axioms Csproto.C03.Source.Skip_safe
+
+-- bool paths of the current source: DecodeBool / More / EncodeBool (the byte for false is stored, whatever the destination held)
+#print axioms Csproto.Bridge.DecoderFuncs.DecodeBool_refines
+#print axioms Csproto.Bridge.DecoderFuncs.More_refines
